@@ -90,12 +90,29 @@ def stub_check_lr_fit(regressor, X, y):
 _REAL = {}
 
 
+def stub_sqrtm(A):
+    """scipy.linalg.sqrtm of a symmetric positive semi-definite matrix diagonalised by a library frame: Q diag(sqrt(d)) Q^T"""
+    if not is_sym(A):
+        import scipy.linalg
+
+        return scipy.linalg.sqrtm(A)
+    A = arrays.sym(A)
+    Q, dg = linalg._diagonalising_frame(A)
+    if Q is None:
+        raise core.Unsupported("sqrtm: matrix outside the frame library")
+    n = A.shape[0]
+    D = arrays.zeros((n, n))
+    for i in range(n):
+        D[i, i] = core.ssqrt(core.SReal.lift(dg[i]))
+    return Q @ D @ Q.T
+
+
 def patches():
     import skmatter.utils._pcovr_utils as U
 
     _REAL["check_lr_fit"] = U.check_lr_fit
     common = {"linalg": _ScipyLinalg, "svds": stub_svds, "randomized_svd": stub_randomized_svd, "svd_flip": stub_svd_flip,
-              "check_lr_fit": stub_check_lr_fit}
+              "check_lr_fit": stub_check_lr_fit, "MatrixSqrt": stub_sqrtm}
     return {"skmatter.decomposition._pcovr": dict(common),
             "skmatter.utils._pcovr_utils": {"randomized_svd": stub_randomized_svd}}
 
